@@ -139,7 +139,10 @@ def gen(tier, rng):
                                        "return wrap<%s>(a) %s wrap<%s>(b);" % (TA, op, TB), refs, pre=pre, cfg=cfg,
                                        meta=dict(anchor="include/cnl/_impl/scaled_integer/operators.h + elastic_integer/custom_operator.h")))
         # single-word wide_integer by value
-        for (L, Ls, R, Rs) in [(31, True, 31, True), (31, True, 63, True), (32, False, 64, False), (63, True, 15, True)]:
+        # same and mixed signedness, narrower / wider on either side (an unsigned operand against a wider negative signed
+        # one is where "convert both to the left operand's signedness" shows: seeded change M-C03-3)
+        for (L, Ls, R, Rs) in [(31, True, 31, True), (31, True, 63, True), (32, False, 64, False), (63, True, 15, True),
+                               (16, False, 40, True), (32, False, 63, True), (40, True, 16, False), (8, False, 31, True), (31, True, 8, False), (64, False, 63, True), (63, True, 64, False)]:
             WA = "wide_integer<%d, %s>" % (L, "int" if Ls else "unsigned")
             WB = "wide_integer<%d, %s>" % (R, "int" if Rs else "unsigned")
             ra, rb = "cnl::_impl::rep_of_t<%s>" % WA, "cnl::_impl::rep_of_t<%s>" % WB
